@@ -132,7 +132,14 @@ func runSuffix(s *Script, rec *Rec) {
 			e := Event{"op": name, "t": B(orig)}
 			sa := garbage(len(t), idx)
 			stages := map[int][]int{}
-			suffix.VerifStage = func(stage int, a []int32) { stages[stage] = i32(a) }
+			rounds := [][]int{}
+			suffix.VerifStage = func(stage int, a []int32) {
+				if stage == 7 {
+					rounds = append(rounds, i32(a))
+					return
+				}
+				stages[stage] = i32(a)
+			}
 			ok := rec.Call(name, func() { suffix.Sort(t, sa) })
 			suffix.VerifStage = nil
 			if !ok {
@@ -140,6 +147,7 @@ func runSuffix(s *Script, rec *Rec) {
 			}
 			e["sa"] = i32(sa)
 			e["m"] = len(stages[4])
+			e["rounds"] = rounds
 			for _, k := range []int{1, 2, 3, 4, 5, 6} {
 				if a, ok := stages[k]; ok {
 					e["s"+itoa(int64(k))] = a
@@ -403,19 +411,15 @@ func genSuffix(seed int64, n int, tier string) []Script {
 			if len(t) <= 300 {
 				ops = append(ops, map[string]any{"op": "suffixcfg", "t": B2(t), "st": pickInt(r, 1, 2, 3), "trst": pickInt(r, 1, 2, 3)})
 			}
-			// short texts over few letters also go through the stage hook
-			// (compared with DivSufSort.tla); longer ones reduced to their
-			// first 40 bytes over two letters, so that many B* suffixes
-			// share a bucket and the rank sort has work to do
+			// texts up to 200 bytes also go through the stage hook (compared
+			// with DivSufSort.tla / TrSortRounds.tla); longer ones cut and
+			// reduced to two letters, so that many B* suffixes share a bucket
 			if len(t) >= 3 {
 				u := append([]byte{}, t...)
-				if len(u) > 40 {
-					u = u[:40]
-				}
-				for k := range u {
-					u[k] &= 1
-					if len(t) <= 40 {
-						u[k] = t[k] & 3
+				if len(u) > 200 {
+					u = u[:60+r.Intn(140)]
+					for k := range u {
+						u[k] &= 1
 					}
 				}
 				ops = append(ops, map[string]any{"op": "suffixstages", "t": B2(u)})
@@ -429,11 +433,19 @@ func genSuffix(seed int64, n int, tier string) []Script {
 		var ops []map[string]any
 		for j := 0; j < 10; j++ {
 			if j%3 == 0 {
-				ops = append(ops, map[string]any{"op": "suffix", "t": B2(tandemBudgetText(r)), "class": "tandembudget"})
+				tb := tandemBudgetText(r)
+				ops = append(ops, map[string]any{"op": "suffix", "t": B2(tb), "class": "tandembudget"})
+				if len(tb) <= 200 {
+					ops = append(ops, map[string]any{"op": "suffixstages", "t": B2(tb)})
+				}
 			} else if j%3 == 1 {
 				ops = append(ops, map[string]any{"op": "suffix", "t": B2(syllableText(r)), "class": "syllables"})
 			} else {
-				ops = append(ops, map[string]any{"op": "suffix", "t": B2(tandemChainText(r)), "class": "tandemchain"})
+				tc := tandemChainText(r)
+				ops = append(ops, map[string]any{"op": "suffix", "t": B2(tc), "class": "tandemchain"})
+				if len(tc) <= 200 {
+					ops = append(ops, map[string]any{"op": "suffixstages", "t": B2(tc)})
+				}
 			}
 		}
 		out = append(out, Script{Tid: "suffix-tb-" + itoa(seed) + "-" + itoa(int64(i)), Comp: "suffix",
